@@ -493,7 +493,8 @@ theorem cum_le_succ (l : List Rat) (k : Nat) (hnn : ∀ x ∈ l, 0 ≤ x) : cum 
   by_cases hk : k < l.length
   · rw [cum_succ_eq l k hk]
     have : 0 ≤ l.getD k 0 := by
-      rw [List.getD_eq_getElem l 0 hk]; exact hnn _ (List.getElem_mem hk)
+      have e : l.getD k 0 = l[k] := by simp [List.getD_eq_getElem?_getD, hk]
+      rw [e]; exact hnn _ (List.getElem_mem hk)
     linarith
   · rw [cum_of_length_le l k (by omega), cum_of_length_le l (k + 1) (by omega)]
 
@@ -508,7 +509,7 @@ theorem absQ_le_iff (q t : Rat) : absQ q ≤ t ↔ -t ≤ q ∧ q ≤ t := by
     · rintro ⟨h1, h2⟩; linarith
 
 /-- what `isProbability` accepts -/
-theorem isProb_iff (l : List Rat) : isProb l = true ↔
+theorem dense_isProb_iff (l : List Rat) : isProb l = true ↔
     (∀ x ∈ l, 0 ≤ x) ∧ absQ (l.sum - 1) ≤ Gen.equalToleranceSmall := by
   simp [isProb, eqSmall, List.all_eq_true]
 
@@ -545,7 +546,7 @@ example : ¬ sampleDense [1/2, 1/2, 1/4] (99/100) = 2 := by
 theorem dense_preimage_length_valid (l : List Rat) (k : Nat) (hp : isProb l = true) (_hne : l ≠ [])
     (hk : k < l.length) :
     absQ (preimageLen l k - l.getD k 0) ≤ Gen.equalToleranceSmall := by
-  obtain ⟨hnn, hs⟩ := (isProb_iff l).mp hp
+  obtain ⟨hnn, hs⟩ := (dense_isProb_iff l).mp hp
   obtain ⟨hs1, hs2⟩ := (absQ_le_iff _ _).mp hs
   have h0 : 0 ≤ cum l k := cum_nonneg l k hnn
   have h01 : cum l k ≤ cum l (k + 1) := cum_le_succ l k hnn
@@ -596,5 +597,192 @@ theorem dense_preimage_length_exact (l : List Rat) (k : Nat) (hnn : ∀ x ∈ l,
 -- test
 example : preimageLen [1/4, 1/2, 1/4] 1 = ([1/4, 1/2, 1/4] : List Rat).getD 1 0 :=
   dense_preimage_length_exact _ 1 (by norm_num) (by norm_num) (by simp)
+
+/-! ## the sparse scan is the dense scan of the row's dense expansion -/
+
+/-- dense expansion of a stored sparse row to `d` columns -/
+def expandRow (d : Nat) (row : List (Nat × Rat)) : List Rat := (List.range d).map (sparseCoeff row)
+
+/-- the expansion restricted to the `n` columns starting at `c0` -/
+def expandFrom (c0 n : Nat) (row : List (Nat × Rat)) : List Rat :=
+  (List.range' c0 n).map (sparseCoeff row)
+
+theorem expandRow_eq (d : Nat) (row : List (Nat × Rat)) : expandRow d row = expandFrom 0 d row := by
+  simp [expandRow, expandFrom, List.range_eq_range']
+
+theorem sparseCoeff_nil (c : Nat) : sparseCoeff [] c = 0 := by simp [sparseCoeff]
+
+theorem sparseCoeff_cons (c : Nat) (v : Rat) (r : List (Nat × Rat)) (c' : Nat) :
+    sparseCoeff ((c, v) :: r) c' = (if c = c' then v else 0) + sparseCoeff r c' := by
+  by_cases h : c = c'
+  · simp [sparseCoeff, h]
+  · simp [sparseCoeff, h]
+
+theorem sparseCoeff_eq_zero : ∀ (row : List (Nat × Rat)) (c : Nat), (∀ e ∈ row, e.1 ≠ c) →
+    sparseCoeff row c = 0
+  | [], c, _ => sparseCoeff_nil c
+  | (c1, v) :: r, c, h => by
+    rw [sparseCoeff_cons, if_neg (h (c1, v) (List.mem_cons_self ..)),
+      sparseCoeff_eq_zero r c (fun e he => h e (List.mem_cons_of_mem _ he)), add_zero]
+
+/-- a zero entry is skipped without changing the remainder (the replicate-skip lemma) -/
+theorem denseGo_replicate_zero : ∀ (k : Nat) (l : List Rat) (p : Rat) (i : Nat), 0 ≤ p →
+    denseGo (List.replicate k 0 ++ l) p i = denseGo l p (i + k)
+  | 0, l, p, i, _ => by simp
+  | k + 1, l, p, i, hp => by
+    have hc : ¬ (0 : Rat) > p := by intro h; linarith
+    rw [List.replicate_succ, List.cons_append, denseGo, if_neg hc, sub_zero,
+      denseGo_replicate_zero k l p (i + 1) hp]
+    congr 1; omega
+
+theorem expandFrom_succ (c0 n : Nat) (row : List (Nat × Rat)) :
+    expandFrom c0 (n + 1) row = sparseCoeff row c0 :: expandFrom (c0 + 1) n row := by
+  simp [expandFrom, List.range'_succ]
+
+theorem expandFrom_hit (c0 n : Nat) (v : Rat) (r : List (Nat × Rat)) (h : ∀ e ∈ r, c0 < e.1) :
+    expandFrom c0 (n + 1) ((c0, v) :: r) = v :: expandFrom (c0 + 1) n r := by
+  rw [expandFrom_succ, sparseCoeff_cons, if_pos rfl,
+    sparseCoeff_eq_zero r c0 (fun e he => by have := h e he; omega), add_zero]
+  congr 1
+  unfold expandFrom
+  apply List.map_congr_left
+  intro c' hc'
+  have : c0 + 1 ≤ c' := (List.mem_range'_1.mp hc').1
+  rw [sparseCoeff_cons, if_neg (by omega), zero_add]
+
+theorem expandFrom_skip (c0 n : Nat) (row : List (Nat × Rat)) (h : ∀ e ∈ row, c0 < e.1) :
+    expandFrom c0 (n + 1) row = 0 :: expandFrom (c0 + 1) n row := by
+  rw [expandFrom_succ, sparseCoeff_eq_zero row c0 (fun e he => by have := h e he; omega)]
+
+theorem denseGo_expandFrom : ∀ (n c0 : Nat) (row rest : List (Nat × Rat)) (p : Rat),
+    row.Pairwise (fun a b => a.1 < b.1) → (∀ e ∈ row, c0 ≤ e.1 ∧ e.1 < c0 + n) →
+    (∀ e ∈ row, 0 ≤ e.2) → 0 ≤ p → p < (row.map (·.2)).sum →
+    denseGo (expandFrom c0 n row) p c0 = sparseGo (row ++ rest) p
+  | _, _, [], _, _, _, _, _, hp, hs => by simp at hs; linarith
+  | 0, c0, (c, v) :: r, _, _, _, hb, _, _, _ => by
+    have := hb (c, v) (List.mem_cons_self ..)
+    simp at this; omega
+  | n + 1, c0, (c, v) :: r, rest, p, hpw, hb, hnn, hp, hs => by
+    have hc := hb (c, v) (List.mem_cons_self ..)
+    have hpw0 := hpw
+    rw [List.pairwise_cons] at hpw
+    obtain ⟨hgt, hpw'⟩ := hpw
+    have hgt' : ∀ e ∈ r, c < e.1 := fun e he => hgt e he
+    have hnn' : ∀ e ∈ r, 0 ≤ e.2 := fun e he => hnn e (List.mem_cons_of_mem _ he)
+    by_cases hcc : c = c0
+    · subst hcc
+      rw [expandFrom_hit c n v r hgt']
+      simp only [denseGo, List.cons_append, sparseGo]
+      by_cases hv : v > p
+      · rw [if_pos hv, if_pos hv]
+      · rw [if_neg hv, if_neg hv]
+        have hle : v ≤ p := not_lt.mp hv
+        simp only [List.map_cons, List.sum_cons] at hs
+        exact denseGo_expandFrom n (c + 1) r rest (p - v) hpw'
+          (fun e he => ⟨hgt' e he, by have := (hb e (List.mem_cons_of_mem _ he)).2; omega⟩)
+          hnn' (by linarith) (by linarith)
+    · have hlt : ∀ e ∈ (c, v) :: r, c0 < e.1 := by
+        intro e he
+        rcases List.mem_cons.mp he with rfl | he
+        · have := hc.1; simp at this ⊢; omega
+        · have := hgt' e he; have := hc.1; simp at this; omega
+      rw [expandFrom_skip c0 n _ hlt]
+      have hz : ¬ (0 : Rat) > p := by intro h; linarith
+      rw [denseGo, if_neg hz, sub_zero]
+      exact denseGo_expandFrom n (c0 + 1) ((c, v) :: r) rest p hpw0
+        (fun e he => ⟨hlt e he, by have := (hb e he).2; omega⟩) hnn hp hs
+
+/-! ### S1. sampling the stored row = sampling its dense expansion (below the row sum) -/
+
+theorem sparse_eq_dense_expansion (d : Nat) (row rest : List (Nat × Rat)) (u : Rat)
+    (hpw : row.Pairwise (fun a b => a.1 < b.1)) (hlt : ∀ e ∈ row, e.1 < d)
+    (hnn : ∀ e ∈ row, 0 ≤ e.2) (hu : 0 ≤ u) (hs : u < (row.map (·.2)).sum) :
+    sampleSparse row rest u = some (sampleDense (expandRow d row) u) := by
+  obtain ⟨c, hc, _⟩ := sparse_total_partial row rest u hnn hu hs
+  have h := denseGo_expandFrom d 0 row rest u hpw
+    (fun e he => ⟨Nat.zero_le _, by simpa using hlt e he⟩) hnn hu hs
+  unfold sampleDense
+  rw [expandRow_eq, h]
+  simp only [sampleSparse] at hc ⊢
+  rw [hc]; rfl
+
+-- test: stored columns 1 and 3 of a 5-column row; draw 1/2 → column 3 either way
+example : sampleSparse [(1, 1/4), (3, 3/4)] [(0, 1)] (1/2) =
+    some (sampleDense (expandRow 5 [(1, 1/4), (3, 3/4)]) (1/2)) :=
+  sparse_eq_dense_expansion 5 _ _ _ (by simp) (by simp) (by norm_num) (by norm_num) (by norm_num)
+example : expandRow 5 [(1, 1/4), (3, 3/4)] = [0, 1/4, 0, 3/4, 0] := by
+  simp [expandRow, List.range_succ, sparseCoeff]
+example : sampleDense (expandRow 5 [(1, 1/4), (3, 3/4)]) (1/2) = 3 := by
+  norm_num [expandRow, List.range_succ, sparseCoeff, List.filter_cons, sampleDense, denseGo]
+
+/-! ### S2. the expansion has the same sum as the stored values -/
+
+theorem expandFrom_sum : ∀ (n c0 : Nat) (row : List (Nat × Rat)),
+    row.Pairwise (fun a b => a.1 < b.1) → (∀ e ∈ row, c0 ≤ e.1 ∧ e.1 < c0 + n) →
+    (expandFrom c0 n row).sum = (row.map (·.2)).sum
+  | n, c0, [], _, _ => by
+    have e : sparseCoeff [] = fun _ => (0 : Rat) := funext sparseCoeff_nil
+    simp [expandFrom, e]
+  | 0, c0, (c, v) :: r, _, hb => by
+    have := hb (c, v) (List.mem_cons_self ..)
+    simp at this; omega
+  | n + 1, c0, (c, v) :: r, hpw, hb => by
+    have hc := hb (c, v) (List.mem_cons_self ..)
+    have hpw0 := hpw
+    rw [List.pairwise_cons] at hpw
+    obtain ⟨hgt, hpw'⟩ := hpw
+    have hgt' : ∀ e ∈ r, c < e.1 := fun e he => hgt e he
+    by_cases hcc : c = c0
+    · subst hcc
+      rw [expandFrom_hit c n v r hgt', List.map_cons, List.sum_cons, List.sum_cons,
+        expandFrom_sum n (c + 1) r hpw'
+          (fun e he => ⟨hgt' e he, by have := (hb e (List.mem_cons_of_mem _ he)).2; omega⟩)]
+    · have hlt : ∀ e ∈ (c, v) :: r, c0 < e.1 := by
+        intro e he
+        rcases List.mem_cons.mp he with rfl | he
+        · have := hc.1; simp at this ⊢; omega
+        · have := hgt' e he; have := hc.1; simp at this; omega
+      rw [expandFrom_skip c0 n _ hlt, List.sum_cons, zero_add]
+      exact expandFrom_sum n (c0 + 1) ((c, v) :: r) hpw0
+        (fun e he => ⟨hlt e he, by have := (hb e he).2; omega⟩)
+
+theorem expandRow_sum (d : Nat) (row : List (Nat × Rat))
+    (hpw : row.Pairwise (fun a b => a.1 < b.1)) (hlt : ∀ e ∈ row, e.1 < d) :
+    (expandRow d row).sum = (row.map (·.2)).sum := by
+  rw [expandRow_eq]
+  exact expandFrom_sum d 0 row hpw (fun e he => ⟨Nat.zero_le _, by simpa using hlt e he⟩)
+
+-- test
+example : (expandRow 5 [(1, 1/4), (3, 3/4)]).sum = 1 := by
+  rw [expandRow_sum 5 _ (by simp) (by simp)]; norm_num
+
+/-! ### S3. the expansion holds the stored value at the stored column -/
+
+theorem sparseCoeff_of_mem : ∀ (row : List (Nat × Rat)) (e : Nat × Rat),
+    row.Pairwise (fun a b => a.1 < b.1) → e ∈ row → sparseCoeff row e.1 = e.2
+  | [], _, _, he => by simp at he
+  | (c, v) :: r, e, hpw, he => by
+    rw [List.pairwise_cons] at hpw
+    obtain ⟨hgt, hpw'⟩ := hpw
+    have hgt' : ∀ x ∈ r, c < x.1 := fun x hx => hgt x hx
+    rcases List.mem_cons.mp he with rfl | he
+    · rw [sparseCoeff_cons, if_pos rfl,
+        sparseCoeff_eq_zero r c (fun x hx => by have := hgt' x hx; omega), add_zero]
+    · have := hgt' e he
+      rw [sparseCoeff_cons, if_neg (by omega), zero_add, sparseCoeff_of_mem r e hpw' he]
+
+theorem expandRow_getD_col (d : Nat) (row : List (Nat × Rat)) (c : Nat) (hc : c < d) :
+    (expandRow d row).getD c 0 = sparseCoeff row c := by
+  simp [expandRow, List.getD_eq_getElem?_getD, hc]
+
+theorem expandRow_getD (d : Nat) (row : List (Nat × Rat)) (k : Nat) (hk : k < row.length)
+    (hpw : row.Pairwise (fun a b => a.1 < b.1)) (hlt : ∀ e ∈ row, e.1 < d) :
+    (expandRow d row).getD (row[k]).1 0 = (row[k]).2 := by
+  rw [expandRow_getD_col d row _ (hlt _ (List.getElem_mem hk))]
+  exact sparseCoeff_of_mem row _ hpw (List.getElem_mem hk)
+
+-- test
+example : (expandRow 5 [(1, 1/4), (3, 3/4)]).getD 3 0 = 3/4 :=
+  expandRow_getD 5 [(1, 1/4), (3, 3/4)] 1 (by simp) (by simp) (by simp)
 
 end AITB.Sampling
